@@ -23,11 +23,13 @@ func c07Category(code string) string {
 }
 
 // spellings of the marker text and the upper-cased tokens they carry
-var c07Spellings = []string{" @ignore IMM01", " @ignore imm01, Ctor02 because", " @ignore IMM", " @ignore all", " @ignore XYZ9,", " @ignore TONL", " @ignored IMM01", " ignore IMM01", " plain"}
+var c07Spellings = []string{" @ignore ctor, Imm01 legacy", " @ignore IMM01", " @ignore imm01, Ctor02 because", " @ignore IMM", " @ignore all", " @ignore XYZ9,", " @ignore TONL", " @ignored IMM01", " ignore IMM01", " plain"}
 
 func c07Tokens(spelling string) (a, b string) {
 	a, b = "", ""
 	a = nd.IteStr(nd.HasPrefix(spelling, " @ignore IMM01"), "IMM01", a)
+	a = nd.IteStr(nd.HasPrefix(spelling, " @ignore ctor, Imm01 legacy"), "CTOR", a)
+	b = nd.IteStr(nd.HasPrefix(spelling, " @ignore ctor, Imm01 legacy"), "IMM01", b)
 	a = nd.IteStr(nd.HasPrefix(spelling, " @ignore imm01, Ctor02 because"), "IMM01", a)
 	b = nd.IteStr(nd.HasPrefix(spelling, " @ignore imm01, Ctor02 because"), "CTOR02", b)
 	a = nd.IteStr(nd.HasPrefix(spelling, " @ignore IMM "), "IMM", a)
